@@ -22,6 +22,7 @@ def stepSvcStart (toks : List String) : Option String :=
         | "ok" => some [attempt none]
         | "inuse" => some [attempt (some false)]
         | "notavail" => some [attempt (some false)]
+        | "namedinuse" => some [attempt (some false)]
         | "unreach" => some (List.replicate 64 (attempt (some true)))
         | _ => none
       match atts? with
